@@ -818,6 +818,61 @@ def _fold_composite_labels(ctx: Ctx):
                   f"{show(bad[0][1]) if bad else ''} labelled {bad[0][0] if bad else ''}", P_TD, None,
                   sample={"type": label, "vectors": len(pairs)})
     ctx.floor("composite types folded", n, 8)
+    # whole messages: the envelope variants zipped with the params variants.  A declared `params` is part of a valid
+    # message also when its value is empty ({} for a structure with optional members only, [] for an array)
+    Sopt = Record("Structure", {"name": "Sopt", "properties": [prop("q", base("integer"), True)], "extends": [], "mixins": [],
+                                "documentation": None, "since": None, "proposed": None, "deprecated": None})
+    msgs = [
+        ("notification with params: Sopt{q?:integer}", "generate_notifications", ref("Sopt"), False),
+        ("notification with params: array<string>", "generate_notifications",
+         Record("ArrayType", {"kind": "array", "element": base("string")}), False),
+        ("request with params: Sopt{q?:integer}", "generate_requests", ref("Sopt"), True),
+    ]
+    from ..flatten import _deepcopy as _dc
+    from ..microeval import ModuleRef as _MR
+    nm = 0
+    for label, gname, pty, is_req in msgs:
+        it = Interp(tree, name=P_TD)
+        it.globals.setdefault("deepcopy", ("host", _dc))
+        it.globals.setdefault("copy", _MR("copy", attrs={"deepcopy": ("host", _dc), "copy": ("host", lambda x: dict(x) if isinstance(x, dict) else list(x))}))
+        g = it.globals.get(gname)
+        if g is None:
+            raise AnalysisError(f"{P_TD}: {gname} not found")
+        method = "x/doIt"
+        mrec = Record("Request" if is_req else "Notification",
+                      {"method": method, "params": pty, "typeName": None, "result": base("null"), "partialResult": None,
+                       "errorData": None, "registrationOptions": None, "registrationMethod": None, "messageDirection": "both",
+                       "documentation": None, "since": None, "proposed": None, "deprecated": None})
+        spec = Record("LSPModel", {"structures": [S, Sopt], "typeAliases": [], "enumerations": [], "requests": [], "notifications": []})
+
+        def fields(t, _S=S, _Sopt=Sopt):       # noqa: F811  (the oracle's structure table for this model)
+            if t.fields["kind"] == "literal":
+                return t.fields["value"].fields["properties"]
+            return (_Sopt if t.fields.get("name") == "Sopt" else _S).fields["properties"]
+        try:
+            out = list(it.iterate(g(mrec, spec)))
+        except Raised as e:
+            ctx.fail("message-vector-label", f"message={label}", f"{gname} raises {e.exc_name} for a {label}", P_TD, None)
+            continue
+        nm += 1
+        pairs = [p_ for p_ in out if isinstance(p_, tuple) and len(p_) == 2 and isinstance(p_[1], dict)]
+
+        def msg_valid(mv):
+            if mv.get("jsonrpc") != "2.0" or mv.get("method") != method:
+                return False
+            if set(mv) - {"jsonrpc", "method", "params", "id"}:
+                return False
+            if is_req != ("id" in mv) or (is_req and not valid_id(mv["id"])):
+                return False
+            return "params" in mv and valid(mv["params"], pty)
+        bad = [(lb, v) for lb, v in pairs if bool(lb) != msg_valid(v)]
+        ctx.check(any(lb is True for lb, _v in pairs), "composite-has-valid-vector", f"message={label}",
+                  f"no vector labelled True is generated for a {label}", P_TD, None)
+        ctx.check(not bad, "message-vector-label", f"message={label}",
+                  f"{len(bad)} of {len(pairs)} vectors generated for a {label} carry the wrong label, e.g. "
+                  f"{show(bad[0][1]) if bad else ''} labelled {bad[0][0] if bad else ''}", P_TD, None,
+                  sample={"message": label, "vectors": len(pairs)})
+    ctx.floor("synthetic messages folded", nm, 3)
 
 
 _run_c17 = run
